@@ -39,6 +39,8 @@ type Input struct {
 	// the operator's OWN environment while it loads and runs the hook (set with os.Setenv before
 	// the operator is assembled, restored afterwards), in this order
 	Env []EnvVar `json:"env,omitempty"`
+	// case class CONC (conc.go): many executions of Hook.Run at the same time; the tasks are Parts
+	Conc *ConcCfg `json:"conc,omitempty"`
 }
 
 // EnvVar is one variable of the operator's own environment.  Var 0..5 are the six contract
@@ -213,6 +215,7 @@ type Obs struct {
 	MetricApplied  bool       `json:"metric_applied"`
 	PatchApplied   bool       `json:"patch_applied"`
 	Note           string     `json:"note,omitempty"`
+	Conc           *ConcObs   `json:"conc,omitempty"` // case class CONC: one observation per execution
 }
 
 var kinds = []string{"empty", "valid", "truncated", "wrongtype"}
@@ -277,6 +280,9 @@ func hookPath(nameLen int) string {
 
 func Run(in Input) Obs {
 	var o Obs
+	if in.Conc != nil {
+		return Obs{Conc: runConc(in)}
+	}
 	foreignDir, foreignPaths, restore, eerr := setOperatorEnv(in)
 	defer restore()
 	if eerr != nil {
@@ -468,13 +474,16 @@ func kindCode(k string) string {
 }
 
 func Render(in Input, obs *Obs, crash string) core.Case {
+	if in.Conc != nil {
+		return renderConc(in, obs, crash)
+	}
 	var o Obs
 	if obs != nil {
 		o = *obs
 	}
 	c := core.Case{}
 	st := map[string]int{"success": 0, "fail": 1, "none": 2, "": 2}[o.Status]
-	c.Coq = fmt.Sprintf("(mkIn %s %s %s %s %s %s %d %s, mkOb %s %s %s %s %s %s %d %d %d %s %s %s %s %s)",
+	c.Coq = fmt.Sprintf("CRun (mkIn %s %s %s %s %s %s %d %s, mkOb %s %s %s %s %s %s %d %d %d %s %s %s %s %s)",
 		core.CoqZ(int64(in.Exit)), in.kindCode("metrics", in.Metrics), in.kindCode("patch", in.Patch), in.kindCode("admission", in.Admission), in.kindCode("conversion", in.Conversion),
 		core.CoqBool(in.Concurrent), in.NameLen,
 		core.CoqList(in.Env, func(e EnvVar) string { return fmt.Sprintf("(%d, %d)", e.Var, e.Val) }),
@@ -634,8 +643,14 @@ func max0(n int) int {
 }
 
 func Gen(r *core.Rng, tier string) ([]core.In[Input], bool) {
-	var ins []core.In[Input]
-	add := func(in Input, stream string) { ins = append(ins, core.In[Input]{Input: in, Stream: stream}) }
+	var ins, concs []core.In[Input]
+	add := func(in Input, stream string) {
+		if in.Conc != nil {
+			concs = append(concs, core.In[Input]{Input: in, Stream: stream})
+			return
+		}
+		ins = append(ins, core.In[Input]{Input: in, Stream: stream})
+	}
 	// corpus
 	add(Input{Exit: 0, Metrics: "valid", Patch: "valid", Admission: "empty", Conversion: "empty"}, "corpus")
 	add(Input{Exit: 1, Metrics: "valid", Patch: "valid", Admission: "empty", Conversion: "empty"}, "corpus")
@@ -651,6 +666,10 @@ func Gen(r *core.Rng, tier string) ([]core.In[Input], bool) {
 	// the operator's own environment holds contract variables / unrelated variables
 	for _, in := range envCorpus() {
 		add(in, "env-corpus")
+	}
+	// many executions at the same time, judged one by one for the content of their context file
+	for _, in := range concCorpus() {
+		add(in, "conc-corpus")
 	}
 	exits := []int{0, 1, 2, 137, -9, -15, -11}
 	if tier == "quick" {
@@ -683,11 +702,14 @@ func Gen(r *core.Rng, tier string) ([]core.In[Input], bool) {
 		for i := 0; i < 56; i++ {
 			add(genEnvCase(er), "env")
 		}
-		return ins, false
+		genConcStream(r.Fork(), 36, add)
+		return spread(ins, concs), false
 	}
 	nEnv := 300
+	nConc := 150
 	if tier == "thorough" {
 		nEnv = 1500
+		nConc = 600
 		// small scope, exhaustive: every single contract variable x kind of foreign file x exit 0/1 x nothing / everything written
 		for v := 0; v < 6; v++ {
 			for val := 0; val < 3; val++ {
@@ -729,13 +751,32 @@ func Gen(r *core.Rng, tier string) ([]core.In[Input], bool) {
 			}
 		}
 	}
-	return ins, false
+	genConcStream(r.Fork(), nConc, add)
+	return spread(ins, concs), false
+}
+
+// spread puts the cases of the concurrent class at even distances among the others: they cost more
+// than the others (in the harness and as Coq terms), so every worker and every shard gets its share
+func spread(ins, concs []core.In[Input]) []core.In[Input] {
+	if len(concs) == 0 {
+		return ins
+	}
+	out := make([]core.In[Input], 0, len(ins)+len(concs))
+	k := 0
+	for i, in := range ins {
+		out = append(out, in)
+		for k < len(concs) && (k+1)*len(ins) <= (i+1)*len(concs) {
+			out = append(out, concs[k])
+			k++
+		}
+	}
+	return append(out, concs[k:]...)
 }
 
 var _ = sort.Ints
 
 var Driver = core.Driver[Input, Obs]{
-	Spec: core.Spec{Property: "C12", Imports: []string{"C12_Model", "C12_Spec", "C12_Corr"}, Corr: "C12_Corr", ShrinkKey: "parts",
-		Rule: "one hook with two schedule bindings in two queues run by the real operator; the scripted hook reports cwd, environment, context file, initial content of the output files and the temp-dir listing, then ends with exit code in {0,1,2,137} and each of the four output files in {empty, valid, truncated, wrong type}; observed: task status, temp dir afterwards, whether the metric / the patch took effect, path uniqueness across two concurrent executions; quick = every exit code x every single-file state + 60 random combinations + corpus; thorough = the full product (exhaustive); the longname stream uses hook names whose temp-file names straddle the 255-byte file-name limit; every case is non-trivial and distinct by its parameters; TEXT cases: one of the metrics / admission-response / conversion-response files holds a literal text (the model reads it byte by byte): valid texts (1-4 metric operations in the documented forms, one response object; varied whitespace, key order, escapes, UTF-8, number forms) and texts broken by a mutation grammar (tags mut:<kind>): trunc, del/ins/dup of one structural byte, stray closer/opener/separator at a value boundary, value of another JSON type, garbage after valid, whitespace only, only a closer, control byte in a string, bad escape, bad number, case-changed keys, unknown keys, null values, duplicate keys, violated metric rules, non-object documents; a fixed corpus holds texts of every kind; quick = corpus + 180 generated texts, thorough = corpus + 5670, search = corpus + 1680; distinct = distinct by parameters and text; ENV cases (tags env:contract / env:unrelated / env:both, envvar:<NAME>, envfile:<absent|empty|content>, envdup): the operator's OWN environment is set (os.Setenv in the operator's process before it loads the hook, restored afterwards; contract variables the case does not mention are removed) to 1-4 variables: the six contract variables with foreign values (a path outside the temp directory: no such file / an empty file / a file with content) and unrelated variables; the scripted hook reports what it finds under the six variables and under every variable of the case, classified as this execution's own file of kind f / the operator's value / absent / other, compared with the model's child environment; after the run the foreign files are checked for changes; quick = 16 fixed + 56 generated, thorough = 16 + 72 exhaustive single-variable cases + 1500, search = 16 + 300"},
+	Spec: core.Spec{Property: "C12", Imports: []string{"C12_Model", "C12_Spec", "C12_ConcModel", "C12_ConcSpec", "C12_Corr"}, Corr: "C12_Corr", ShrinkKey: "parts",
+		Rule: "one hook with two schedule bindings in two queues run by the real operator; the scripted hook reports cwd, environment, context file, initial content of the output files and the temp-dir listing, then ends with exit code in {0,1,2,137} and each of the four output files in {empty, valid, truncated, wrong type}; observed: task status, temp dir afterwards, whether the metric / the patch took effect, path uniqueness across two concurrent executions; quick = every exit code x every single-file state + 60 random combinations + corpus; thorough = the full product (exhaustive); the longname stream uses hook names whose temp-file names straddle the 255-byte file-name limit; every case is non-trivial and distinct by its parameters; TEXT cases: one of the metrics / admission-response / conversion-response files holds a literal text (the model reads it byte by byte): valid texts (1-4 metric operations in the documented forms, one response object; varied whitespace, key order, escapes, UTF-8, number forms) and texts broken by a mutation grammar (tags mut:<kind>): trunc, del/ins/dup of one structural byte, stray closer/opener/separator at a value boundary, value of another JSON type, garbage after valid, whitespace only, only a closer, control byte in a string, bad escape, bad number, case-changed keys, unknown keys, null values, duplicate keys, violated metric rules, non-object documents; a fixed corpus holds texts of every kind; quick = corpus + 180 generated texts, thorough = corpus + 5670, search = corpus + 1680; distinct = distinct by parameters and text; ENV cases (tags env:contract / env:unrelated / env:both, envvar:<NAME>, envfile:<absent|empty|content>, envdup): the operator's OWN environment is set (os.Setenv in the operator's process before it loads the hook, restored afterwards; contract variables the case does not mention are removed) to 1-4 variables: the six contract variables with foreign values (a path outside the temp directory: no such file / an empty file / a file with content) and unrelated variables; the scripted hook reports what it finds under the six variables and under every variable of the case, classified as this execution's own file of kind f / the operator's value / absent / other, compared with the model's child environment; after the run the foreign files are checked for changes; quick = 16 fixed + 56 generated, thorough = 16 + 72 exhaustive single-variable cases + 1500, search = 16 + 300; CONC cases (tags class:conc, conc-queues:<n>, conc-procs:<GOMAXPROCS>, conc-hold, conc-biggest:<size class>, conc-same-hook, conc-failing-hook): the real Hook.Run called from one goroutine per queue (2-12 queues, 2-6 tasks each, the same hook in several queues and different hooks, one hook always exiting non-zero), free running or in lockstep rounds with every hook process of a round held open, GOMAXPROCS 1 / 2 / 4 / unchanged, a scenario of n executions run up to max(1, 48/n) times (the first run with an execution that is not as expected is handed on, else the last); a task's contexts are segments of schedule / onStartup / group contexts, documents from 2 bytes to about 400 KiB; which hook-process report belongs to which call is established through the object-patch file / the exit status, never through the context file; every execution is judged by itself (what ITS hook process read, byte for byte, against ITS task; own directory, own empty output files, names unique over all executions of the case, outputs read back, temp directory empty at the end and holding five files per open execution in a lockstep round); delta debugging drops tasks; quick = 5 fixed + 36 generated, thorough = 5 + 600, search = 5 + 150"},
 	Gen: Gen, Run: Run, Render: Render, PerShard: 60, Workers: 14, CaseTimout: 40 * time.Second,
 }
